@@ -960,12 +960,18 @@ func (c *compiler) compile(in *ast.Program, strict, inGlobal bool, evalVm *vm) {
 		}
 	}
 	numFuncs := len(scope.bindings)
-	if inGlobal && !ownVarScope {
+	compileGlobalFuncs := func() {
 		if numFuncs == len(funcs) {
 			c.compileFunctionsGlobalAllUnique(funcs)
 		} else {
-			c.compileFunctionsGlobal(funcs)
+			c.compileFunctionsGlobal(scope, funcs)
 		}
+	}
+	// The functions of sloppy eval code at global level are instantiated in the lexical environment of
+	// the eval (they can see its let/const/class declarations), i.e. after that environment is entered.
+	lateFuncs := inGlobal && !ownVarScope && eval
+	if inGlobal && !ownVarScope && !lateFuncs {
+		compileGlobalFuncs()
 	}
 	c.compileDeclList(in.DeclarationList, false)
 	numVars := len(scope.bindings) - numFuncs
@@ -973,16 +979,21 @@ func (c *compiler) compile(in *ast.Program, strict, inGlobal bool, evalVm *vm) {
 	for i, b := range scope.bindings {
 		vars[i] = b.name
 	}
-	if len(vars) > 0 && !ownVarScope && ownLexScope {
-		if inGlobal {
-			c.emit(&bindGlobal{
-				vars:      vars[numFuncs:],
-				funcs:     vars[:numFuncs],
-				deletable: eval,
-			})
-		} else {
-			c.emit(&bindVars{names: vars, deletable: eval})
+	emitBindVars := func() {
+		if len(vars) > 0 && !ownVarScope && ownLexScope {
+			if inGlobal {
+				c.emit(&bindGlobal{
+					vars:      vars[numFuncs:],
+					funcs:     vars[:numFuncs],
+					deletable: eval,
+				})
+			} else {
+				c.emit(&bindVars{names: vars, deletable: eval})
+			}
 		}
+	}
+	if !lateFuncs {
+		emitBindVars()
 	}
 	var enter *enterBlock
 	if c.compileLexicalDeclarations(in.Body, ownVarScope || !ownLexScope) {
@@ -995,6 +1006,10 @@ func (c *compiler) compile(in *ast.Program, strict, inGlobal bool, evalVm *vm) {
 			enter = &enterBlock{}
 			c.emit(enter)
 		}
+	}
+	if lateFuncs {
+		compileGlobalFuncs()
+		emitBindVars()
 	}
 	if len(scope.bindings) > 0 && !ownLexScope {
 		var lets, consts []unistring.String
@@ -1102,7 +1117,7 @@ func (c *compiler) compileFunctionsGlobalAllUnique(list []*ast.FunctionDeclarati
 	}
 }
 
-func (c *compiler) compileFunctionsGlobal(list []*ast.FunctionDeclaration) {
+func (c *compiler) compileFunctionsGlobal(s *scope, list []*ast.FunctionDeclaration) {
 	m := make(map[unistring.String]int, len(list))
 	for i := len(list) - 1; i >= 0; i-- {
 		name := list[i].Function.Name.Name
@@ -1115,7 +1130,7 @@ func (c *compiler) compileFunctionsGlobal(list []*ast.FunctionDeclaration) {
 		name := decl.Function.Name.Name
 		if m[name] == i {
 			c.compileFunctionLiteral(decl.Function, false).emitGetter(true)
-			c.scope.bindings[idx] = c.scope.boundNames[name]
+			s.bindings[idx] = s.boundNames[name]
 			idx++
 		} else {
 			leave := c.enterDummyMode()
